@@ -27,6 +27,14 @@ RULE = 'seeded merge sequences with dynamic nodes; non-trivial = the built confi
 ASSUMPTIONS = ['recorders named plain* return equal plain data on every call, so two evaluations of one source are comparable with ==']
 TIERS = {'quick': {'cases': 2500, 'budget': 60}, 'thorough': {'cases': 80000, 'budget': 900}}
 POOL = ['a', 'b', 'c', 'd', '_u', 'k1']
+MIN_COUNTERS = {'plain_scalars_compared': 1}
+_counts = {'plain_scalars_compared': 0}
+
+
+def finish():
+    return dict(_counts)
+
+
 FLAGS = ('prio', 'del', 'xdel', 'new', 'safe', 'src', 'attrs')
 
 
@@ -142,6 +150,12 @@ def mirror(src, res, path, problems):
             return
         for i, c in enumerate(src.ayns.children()):
             mirror(c, res[i], path + [i], problems)
+    elif type(src).__name__.startswith('ConfigScalar('):
+        # a plain scalar node evaluates to its own value, in its exact python type (1.0 is not 1, -0.0 is not 0.0)
+        nat = src.ayns.native_value
+        _counts['plain_scalars_compared'] = _counts.get('plain_scalars_compared', 0) + 1
+        if type(res) is not type(nat) or repr(res) != repr(nat):
+            problems.append(f'{path}: the scalar node holds {nat!r} ({type(nat).__name__}) but evaluated to {res!r} ({type(res).__name__})')
 
 
 def mutate_result(cfg, muts):
